@@ -166,7 +166,7 @@ func applyBlank(x *dns.Msg, m *wm.Msg, slots []blankSlot) (names, zeroed int) {
 // drawBlank chooses which slots of m are emptied. namesTouched: at least one chosen slot empties a
 // name (the exactness of such a message is the finding empty-name-counted).
 func drawBlank(t *rapid.T, m *wm.Msg) (slots []blankSlot, namesTouched bool) {
-	var owners, rnames, zeros, questions []blankSlot
+	var owners, rnames, zeros, questions, gateways []blankSlot
 	for i := range m.Q {
 		if i < 4 {
 			questions = append(questions, blankSlot{0, i, -1})
@@ -195,8 +195,10 @@ func drawBlank(t *rapid.T, m *wm.Msg) (slots []blankSlot, namesTouched bool) {
 					rnames = append(rnames, blankSlot{sec, i, k})
 				case sp.K == wm.Names && len(r.Fields[k].NL) > 0:
 					rnames = append(rnames, blankSlot{sec, i, k})
-				case sp.K == wm.GW && r.Fields[k].U >= 1 && r.Fields[k].U <= 3:
+				case sp.K == wm.GW && r.Fields[k].U == 3:
 					rnames = append(rnames, blankSlot{sec, i, k})
+				case sp.K == wm.GW && (r.Fields[k].U == 1 || r.Fields[k].U == 2):
+					gateways = append(gateways, blankSlot{sec, i, k})
 				}
 			}
 		}
@@ -238,6 +240,10 @@ func drawBlank(t *rapid.T, m *wm.Msg) (slots []blankSlot, namesTouched bool) {
 	if len(slots) == 0 {
 		all := append(append(append(append([]blankSlot{}, questions...), owners...), rnames...), zeros...)
 		slots = some(all, 3)
+	}
+	if len(gateways) > 0 && rapid.Bool().Draw(t, "blankgateway") {
+		// gateway addresses that were never filled in, on top of whatever else was left empty
+		slots = append(slots, some(gateways, 2)...)
 	}
 	for _, s := range slots {
 		if s.Field != -2 {
